@@ -12,7 +12,7 @@ META = {
         'chython/containers/molecule.py: calc_implicit, calc_labels, check_valence',
     ],
     'bounds': {
-        'quick': 'every random-order spelling (random() symbolic) of 16 aromatic / aromatisable seeds in aromatic and in Kekule '
+        'quick': 'every random-order spelling (random() symbolic) of 20 aromatic / aromatisable seeds in aromatic and in Kekule '
                  'form; 5- and 6-membered ring templates with every position solver-enumerated over {c, n, [nH], o, s} (5-ring) '
                  'and {c, n, o, [n+]} (6-ring) against a perfect-matching oracle',
         'thorough': '30 seeds incl. fused and charged systems; 7-ring template',
@@ -29,7 +29,8 @@ FOREIGN = {'O=c1cc[nH]cc1', 'Cn1cnc2c1c(=O)n(C)c(=O)n2C', 'c1cc[se]c1'}
 
 SEEDS_Q = ['c1ccccc1', 'c1ccncc1', 'c1cc[nH]c1', 'c1ccoc1', 'c1ccsc1', 'Cc1ccccc1', 'c1ccc2ccccc2c1', 'c1ccc2[nH]ccc2c1',
            'O=c1cc[nH]cc1', 'c1cc[n+](C)cc1', '[O-][n+]1ccccc1', 'c1cnccn1', 'c1ccc(cc1)-c1ccccc1', 'c1cn[nH]c1', 'Oc1ccccc1',
-           'c1coc(C)n1', 'c1cnc2nccnc2n1', 'c1ccc2c(c1)sc1nccn12', 'c1nnn[nH]1']
+           'c1coc(C)n1', 'c1cnc2nccnc2n1', 'c1ccc2c(c1)sc1nccn12', 'c1nnn[nH]1',
+           'CN1C=CC2=NC=CC2=C1']      # N-alkyl quinoid ring fused to an azole: no mobile hydrogen for the tautomer fix
 SEEDS_T = SEEDS_Q + ['c1ccc2c(c1)ccc1ccccc12', 'c1ccc2cc3ccccc3cc2c1', 'Cn1cnc2c1c(=O)n(C)c(=O)n2C', 'c1ccc2ncccc2c1',
                      '[cH-]1cccc1', 'c1cc[o+]cc1', 'c1ccc2occc2c1', 'c1ccc2sccc2c1', 'c1cc2cccc3ccc4cccc1c4c32', 'c1ccpcc1',
                      'c1cc[se]c1', 'b1ccccc1' if False else 'c1ccbcc1', 'O=C1C=CC(=O)C=C1', 'C1=CC=CC=C1',
